@@ -46,6 +46,9 @@ class Unit:
         except SyntaxError as e:
             raise AnalysisError(f'{relpath} does not parse: {e}')
         self.lines = source.splitlines()
+        if not os.environ.get('VERIF_NO_NORMALIZE'):
+            from .normalize import normalize
+            normalize(self.tree)
         for node in ast.walk(self.tree):
             for child in ast.iter_child_nodes(node):
                 child._parent = node
